@@ -107,6 +107,12 @@ pub struct HTLCOutputInCommitment {
     pub transaction_output_index: Option<u32>,
 }
 impl Clone for HTLCOutputInCommitment { #[verifier::external_body] fn clone(&self) -> (r: Self) ensures r == *self { unimplemented!() } }
+// LDK derives PartialEq (field-wise)
+impl PartialEq for HTLCOutputInCommitment { #[verifier::external_body] fn eq(&self, other: &Self) -> (r: bool) { unimplemented!() } }
+impl vstd::std_specs::cmp::PartialEqSpecImpl for HTLCOutputInCommitment {
+    open spec fn obeys_eq_spec() -> bool { true }
+    open spec fn eq_spec(&self, other: &Self) -> bool { *self == *other }
+}
 
 #[verifier::external_body]
 pub struct Message { _p: u8 }
